@@ -1,8 +1,11 @@
 #!/bin/sh
-# alpha_check.sh Cnn...  -- run checks against the alpha-renamed scratch tree (/dev/shm/alpha; build with tools/alpha_rename.py)
+# alpha_check.sh Cnn...  -- run checks against an alpha-renamed scratch tree (build with tools/alpha_rename.py <dir> [_r|OPAQUE])
+# ALPHA=/dev/shm/alpha2 tools/alpha_check.sh C07
+A=${ALPHA:-/dev/shm/alpha}
 cd /verif
+mkdir -p /dev/shm/ev-alpha
 for p in "$@"; do
-  /venv/bin/python -B -m xv check $p --repo /dev/shm/alpha --evidence-dir /dev/shm/ev-alpha > /dev/shm/ev-alpha/out-$p.txt 2>&1
+  /venv/bin/python -B -m xv check $p --repo $A --evidence-dir /dev/shm/ev-alpha > /dev/shm/ev-alpha/out-$p.txt 2>&1
   echo "$p rc=$?"
   grep -h "VIOLATED\|ANALYSIS-ERROR" /dev/shm/ev-alpha/out-$p.txt | cut -c1-${W:-330}
 done
